@@ -1,5 +1,7 @@
 From Coq Require Import Extraction ExtrOcamlBasic.
-From F8 Require Import Base.Conv Sess.Bytes Sess.Msg Sess.Persist Sess.Session Sess.SimpleCodec Sess.Wire C19.Run19 C19.Spec_C19.
+From F8 Require Import Base.Conv Sess.Bytes Sess.Msg Sess.Persist Sess.Session Sess.SimpleCodec Sess.Wire C19.Run19 C19.Spec_C19
+  C19.CodecDecode.
+From F8 Require Codec.Meta Codec.Render.
 Extraction Language OCaml.
-Extraction "../ocaml/gen/C19/model.ml" keep_types run_line19 run_history19 parse_trace parse_history render_trace
-  raw_seq c19_ok c19_ok_line.
+Extraction "../ocaml/gen/C19/model.ml" keep_types run_line19 run_line19c run_history19 parse_trace parse_history render_trace
+  raw_seq c19_ok c19_ok_line codec_decode F8.Codec.Render.render_default.
